@@ -505,7 +505,7 @@ def vt_unpack_any(c):
     n = c.len(data)
     c.raises("Exception", when=None)  # C12 constrains the work, not the error type, of this decoder
     c.raises_only({"Exception"})
-    c.ghost_bound("ticks", 2 * Z(n) + 16)  # linear in the input: at most 6 steps per 4 bytes consumed
+    c.ghost_bound("ticks", 2 * Z(n) + 16, on_raise=2 * Z(n) + 16)  # linear in the input: at most 6 steps per 4 bytes consumed; also when decoding fails
 
     def havoc_list(I_, cur, s):
         from pyvc.values import SList
@@ -533,7 +533,7 @@ def pdu_unpack_any(c):
     c.assume(z3.And(Z(ptype) != 11, Z(ptype) != 14))
     c.raises("Exception", when=None)
     c.raises_only({"Exception"})
-    c.ghost_bound("ticks", 2 * n + 32)
+    c.ghost_bound("ticks", 2 * n + 32, on_raise=2 * n + 32)
     c.ghost_bound("copied", 2 * n + 64)
     L = lambda v: Z(c.len(v))  # noqa: E731
 
